@@ -103,7 +103,7 @@ Definition new_segment (ic : icpts) (val : bytes) : res segment :=
         | POk r =>
           Ok {| sval := val; sname := name; srule := rule; ssuffix := suffix; styp := TRegexp;
                 samb := calc_amb ign rule suffix; sendpoint := false; signore := ign; sre := r;
-                smatch := fun _ => true |}
+                smatch := re_full r |}
         | PErr => Err (bs "regexp")
         | PUnsup => Unsup
         end
@@ -201,30 +201,21 @@ Fixpoint find_split (m : bytes -> bool) (suffix : bytes) (pre_rev : bytes) (s : 
 Definition seg_match (seg : segment) (path : bytes) (ps : params) : option (bytes * params) :=
   match styp seg with
   | TString => if has_prefix path (sval seg) then Some (skipn (length (sval seg)) path, ps) else None
-  | TIcpt | TNamed =>
-    if sendpoint seg then
+  | TIcpt | TNamed | TRegexp =>
+    (* a regexp parameter that ends its segment behaves like an end point (Endpoint stays false) *)
+    if sendpoint seg || (stype_eqb (styp seg) TRegexp && match ssuffix seg with [] => true | _ => false end) then
       if smatch seg path then Some ([], if signore seg then ps else ctx_set ps (sname seg) path) else None
     else
       match find_split (smatch seg) (ssuffix seg) [] path with
       | Some (v, rest) => Some (rest, if signore seg then ps else ctx_set ps (sname seg) v)
       | None => None
       end
-  | TRegexp =>
-    match re_exec (sre seg) (ssuffix seg) path with
-    | Some (v, rest) => Some (rest, if signore seg then ps else ctx_set ps (sname seg) v)
-    | None => None
-    end
   end.
 
 (* Segment.Valid (strict URL building) *)
 Definition seg_valid (seg : segment) (v : bytes) : bool :=
   match styp seg with
-  | TIcpt => smatch seg v
-  | TRegexp =>
-    match re_exec (sre seg) (ssuffix seg) (v ++ ssuffix seg) with
-    | Some (_, []) => true
-    | _ => false
-    end
+  | TIcpt | TRegexp => smatch seg v
   | _ => true
   end.
 
